@@ -20,3 +20,5 @@ git -C /repo checkout -- . ; git -C /repo status --short | head -3
 (cd /repo && cargo build --offline -p xvc --bin xvc 2>&1 | grep -E "^error" | head -3)
 echo "demo_changed_rc=$rc1 demo_unchanged_rc=$rc0" > $dst/confirm.txt
 rm -f /verif/replays/*
+# generated snapshots and evidence written from the seeded tree are not kept
+git -C /verif checkout -- evidence $(git -C /verif ls-files | grep '/Gen/') 2>/dev/null
